@@ -51,9 +51,21 @@ func RunC01(ctx *core.Ctx) {
 				if r.Intn(3) == 0 {
 					prof.RunLen = 70
 				}
+				if k == 2 {
+					n = 2
+				}
+				if k == 2 || n <= 3 && n > 0 && r.Intn(3) == 0 {
+					prof.LongLists = true
+					prof.SmallDomain = false
+				}
 				rows := e.NewRows(n)
 				gen.FillRows(r, rows, prof)
 				cfg := gen.RandWriterCfg(r)
+				if k == 2 {
+					// default page buffer and dictionary limits: the whole list reaches the
+					// column writer and its dictionary in one call
+					cfg = gen.PlainWriterCfg(r)
+				}
 				c01Case(ctx, e, rows, cfg, c01Batches(r, n), r, k == 0 && e.Name == "T000")
 			}
 		}(e)
